@@ -43,7 +43,8 @@ func (p nHits) Rate(time.Duration) float64                              { return
 
 var (
 	methods = []string{"GET", "POST", "PATCH"}
-	urls    = []string{"http://h.example/plain", "http://user:pw@h.example:8080/p/a?x=1&y=two"}
+	// the last three are spelled differently from what net/url prints for them (scheme case, escaping)
+	urls    = []string{"http://h.example/plain", "http://user:pw@h.example:8080/p/a?x=1&y=two", "HTTP://h.example/Upper", "http://h.example/with space?q=a b", "http://h.example/caf\u00e9#frag"}
 	hdrSets = []http.Header{
 		nil,
 		{"X-Test": {"a"}},
@@ -455,8 +456,8 @@ func check(c cfg) (ds []disc, e expect, nontrivial bool) {
 		if q.Method != tgtMethod {
 			bad("request.method", "got %s want %s", q.Method, tgtMethod)
 		}
-		if q.URL != tgtURL {
-			bad("request.url", "got %s want %s", q.URL, tgtURL)
+		if pu, err := url.Parse(tgtURL); err != nil || q.URL != pu.String() {
+			bad("request.url", "got %s want %s (the target's URL as net/url prints it)", q.URL, tgtURL)
 		}
 		if !bytes.Equal(q.Body, reqBody) {
 			bad("request.body", "got %q want %q", q.Body, reqBody)
@@ -868,7 +869,51 @@ func TestC06(t *testing.T) {
 
 	// part 5: several hits in one attack - sequence numbers of results and requests match
 	multiHit(R)
+	unbuildable(R)
 	R.Finish(t)
+}
+
+// unbuildable: targets for which no request can be built (bad escape, bad
+// method, URL without scheme). Nothing reaches the transport, and the one
+// result still names the target and says what went wrong.
+func unbuildable(R *ev.Run) {
+	tgts := []vegeta.Target{
+		{Method: "GET", URL: "http://h.example/%zz"},
+		{Method: "BAD METHOD", URL: "http://h.example/ok"},
+		{Method: "GET", URL: "://no-scheme"},
+		{Method: "POST", URL: "http://h.example/\x7f", Body: []byte("b")},
+	}
+	for ti, tgt := range tgts {
+		for n := range names {
+			for _, mb := range []int64{-1, 0, 5} {
+				rt := &echoRT{}
+				atk := vegeta.NewAttacker(vegeta.Client(&http.Client{Transport: rt}), vegeta.Workers(1), vegeta.MaxWorkers(1), vegeta.MaxBody(mb))
+				var rs []*vegeta.Result
+				for r := range atk.Attack(vegeta.NewStaticTargeter(tgt), nHits{1}, 0, names[n]) {
+					rs = append(rs, r)
+				}
+				R.Eval(1)
+				R.Trans(1)
+				R.Distinct(fmt.Sprint("unbuildable", ti, n, mb))
+				R.Part("configurations", "unbuildable-request", 1)
+				ctx := map[string]any{"target": fmt.Sprintf("%s %q", tgt.Method, tgt.URL), "attack": names[n], "max_body": mb}
+				switch {
+				case len(rs) != 1:
+					R.Violation("unbuildable:results.count", ctx)
+				case len(rt.seqs) != 0:
+					R.Violation("unbuildable:a-request-reached-the-transport", ctx)
+				case rs[0].Method != tgt.Method || rs[0].URL != tgt.URL:
+					ctx["got"] = fmt.Sprintf("%s %q", rs[0].Method, rs[0].URL)
+					R.Violation("unbuildable:result.method-url", ctx)
+				case rs[0].Error == "" || rs[0].Code != 0:
+					ctx["got"] = fmt.Sprintf("code %d error %q", rs[0].Code, rs[0].Error)
+					R.Violation("unbuildable:result.failed-without-error", ctx)
+				case rs[0].Attack != names[n]:
+					R.Violation("unbuildable:result.attack", ctx)
+				}
+			}
+		}
+	}
 }
 
 // multiHit: 3 hits, sequentially (one worker), every answer 200 with a body
